@@ -293,6 +293,26 @@ impl MetadataClient for LocalMetadataClient {
         Ok(())
     }
 
+    async fn publish_compaction(
+        &self,
+        source_chunks: &[String],
+        target: &ChunkMetadata,
+    ) -> Result<()> {
+        // All sources must still be registered, otherwise their rows live elsewhere by now
+        if let Some(missing) = source_chunks
+            .iter()
+            .find(|path| !self.chunks.contains_key(path.as_str()))
+        {
+            return Err(crate::Error::Metadata(format!(
+                "Compaction source chunk no longer in catalog: {}",
+                missing
+            )));
+        }
+        // No await point between registering the target and dropping the sources
+        self.register_chunk(&target.path, target).await?;
+        self.complete_compaction(source_chunks, &target.path).await
+    }
+
     async fn update_compaction_status(&self, job_id: &str, status: CompactionStatus) -> Result<()> {
         if let Some(mut job) = self.compaction_jobs.get_mut(job_id) {
             job.status = status;
